@@ -728,6 +728,43 @@ func TestC03_DeepRelay(t *testing.T) {
 
 // TestC03_LongOptions: decoded DHCPv4 packets whose option values have every total length around the multiples of
 // 255 and 256 (up to 1,300 octets, arriving as consecutive instances), alone, next to other options, and inside a
+// TestC03_OptionPairs: DHCPv4 packets holding every unordered pair of the option codes the library has a typed reading
+// for, each with typical well-formed values (several for the codes whose value selects a branch: architecture,
+// message type, vendor-specific information) — a printing, summarising or extracting path that consults two options
+// together is reached for every pair, alone and inside DHCPv4-in-DHCPv6.
+func TestC03_OptionPairs(t *testing.T) {
+	ip := []byte{10, 0, 0, 1}
+	vals := map[uint8][][]byte{
+		1: {{255, 255, 255, 0}}, 3: {ip}, 6: {append(append([]byte{}, ip...), 8, 8, 8, 8)}, 12: {[]byte("host")}, 15: {[]byte("example.org")}, 17: {[]byte("/root")},
+		28: {{10, 0, 0, 255}}, 42: {ip}, 43: {{6, 1, 8, 255}, {1, 2, 3, 4}, {71, 4, 0, 0, 0, 0, 255}, {}}, 44: {ip}, 50: {ip}, 51: {{0, 0, 14, 16}}, 53: {{1}, {2}, {5}, {8}},
+		54: {ip}, 55: {{1, 3, 6, 43, 60, 66, 67}}, 56: {[]byte("nak")}, 57: {{5, 220}}, 58: {{0, 0, 7, 8}}, 59: {{0, 0, 12, 78}}, 60: {[]byte("PXEClient:Arch:00016:UNDI:003001"), []byte("PXEClient"), []byte("HTTPClient"), []byte("anything")},
+		61: {{1, 1, 2, 3, 4, 5, 6}}, 66: {[]byte("tftp.example")}, 67: {[]byte("boot.efi")}, 77: {{3, 'a', 'b', 'c'}, []byte("iPXE")}, 82: {{1, 2, 'a', 'b', 2, 1, 'c'}},
+		93: {{0, 0}, {0, 7}, {0, 16}, {0, 11}, {255, 255}, {0, 7, 0, 16}, {0, 33}}, 94: {{1, 2, 1}, {1, 3, 16}}, 97: {append([]byte{0}, bytes.Repeat([]byte{7}, 16)...)}, 108: {{0, 0, 7, 8}}, 116: {{1}},
+		119: {{3, 'e', 'n', 'g', 7, 'e', 'x', 'a', 'm', 'p', 'l', 'e', 0}}, 121: {{24, 10, 0, 0, 1, 2, 3, 4}}, 124: {{0, 0, 0, 9, 2, 'a', 'b'}}, 125: {{0, 0, 0, 9, 3, 1, 1, 'x'}}, 175: {{1, 1, 1}}, 252: {[]byte("http://wpad/")},
+	}
+	var codes []int
+	for c := range vals {
+		codes = append(codes, int(c))
+	}
+	sort.Ints(codes)
+	n := 0
+	for ai, a := range codes {
+		for _, b := range codes[ai+1:] {
+			for _, va := range vals[uint8(a)] {
+				for _, vb := range vals[uint8(b)] {
+					p := append(append(append(v4Prefix(), byte(a), byte(len(va))), va...), append(append([]byte{byte(b), byte(len(vb))}, vb...), 255)...)
+					c03.one(t, c03Case{Entry: "v4", B: p})
+					if n%4 == 0 {
+						c03.one(t, c03Case{Entry: "v6", B: append([]byte{20, 1, 2, 3}, v6opt(87, p)...)})
+					}
+					n++
+				}
+			}
+		}
+	}
+	c03.rec.Class("all pairs of typed DHCPv4 options")
+}
+
 // DHCPv4-in-DHCPv6 option: every read-only operation, re-encoding included, returns normally.
 // TestC03_RawFields: well-formed frames for the bound port in which one field the reader need not trust takes every
 // small or extreme value: UDP length 0..16 / 0xffff / actual±1, fragment word, for IP headers of 20, 24 and 60 octets
